@@ -86,28 +86,32 @@ def gen_reader(trees):
     # character lists handed to _find_next_character, in order of appearance
     calls = sorted([n for n in ast.walk(fn) if isinstance(n, ast.Call) and isinstance(n.func, ast.Name)
                     and n.func.id == '_find_next_character'], key=lambda n: (n.lineno, n.col_offset))
-    lists = []
-    for c in calls:
-        a = c.args[1]
+    def char_list(a):
+        """Gallina text of a character-list argument: a list literal, or <list literal> +
+        list(symbol_to_order.keys())"""
         if isinstance(a, ast.List):
-            lists.append(str_list(a))
-        elif isinstance(a, ast.Name) and a.id == 'next_characters':
-            lists.append(None)
-        else:
-            raise Unsupported('unexpected character-list argument of _find_next_character')
-    if [l is None for l in lists] != [False, False, False, False, True]:
-        raise Unsupported('the five _find_next_character call sites changed shape')
-    names = ['fnc_eon', 'fnc_next_open', 'fnc_next_close', 'fnc_eon_a']
-    for nm, l in zip(names, lists):
-        out += 'Definition %s : list pystr := %s.\n' % (nm, coq_str_list(l))
+            return coq_str_list(str_list(a))
+        if isinstance(a, ast.BinOp) and isinstance(a.op, ast.Add) and isinstance(a.left, ast.List) \
+                and ast.unparse(a.right) == 'list(symbol_to_order.keys())':
+            return '%s ++ map fst symbol_to_order' % coq_str_list(str_list(a.left))
+        raise Unsupported('unexpected character-list argument of _find_next_character')
+
     nc = [n for n in ast.walk(fn) if isinstance(n, ast.Assign) and isinstance(n.targets[0], ast.Name)
           and n.targets[0].id == 'next_characters']
-    if len(nc) != 1 or not (isinstance(nc[0].value, ast.BinOp) and isinstance(nc[0].value.op, ast.Add)
-                            and isinstance(nc[0].value.left, ast.List)
-                            and ast.unparse(nc[0].value.right) == 'list(symbol_to_order.keys())'):
-        raise Unsupported('next_characters is not <list literal> + list(symbol_to_order.keys())')
-    out += ('Definition fnc_eon_b : list pystr := %s ++ map fst symbol_to_order.\n'
-            % coq_str_list(str_list(nc[0].value.left)))
+    if len(nc) != 1:
+        raise Unsupported('next_characters is not assigned exactly once')
+    texts = []
+    for c in calls:
+        a = c.args[1]
+        if isinstance(a, ast.Name) and a.id == 'next_characters':
+            texts.append(char_list(nc[0].value))
+        else:
+            texts.append(char_list(a))
+    if len(texts) != 5 or not (isinstance(calls[4].args[1], ast.Name) and calls[4].args[1].id == 'next_characters'):
+        raise Unsupported('the five _find_next_character call sites changed shape')
+    names = ['fnc_eon', 'fnc_next_open', 'fnc_next_close', 'fnc_eon_a', 'fnc_eon_b']
+    for nm, t in zip(names, texts):
+        out += 'Definition %s : list pystr := %s.\n' % (nm, t)
     dbo = [n for n in ast.walk(fn) if isinstance(n, ast.Assign) and isinstance(n.targets[0], ast.Name)
            and n.targets[0].id == 'default_bond_order' and isinstance(n.value, ast.Constant)]
     if len(dbo) != 1 or not isinstance(dbo[0].value.value, int):
